@@ -43,6 +43,12 @@ class InternedMC(type):
     def __call__(cls, **kwargs):
         kwargs = {**cls._constructor_defaults, **kwargs}
         key = tuple(sorted(kwargs.items()))
+        try:
+            hash(key)
+        except TypeError:
+            # One of the fields (e.g. the value a variable is compared with)
+            # is not hashable: this one cannot be interned
+            return super().__call__(**kwargs)
         if key not in cls._cache:
             cls._cache[key] = super().__call__(**kwargs)
         return cls._cache[key]
